@@ -99,8 +99,11 @@ fn thread_table() -> Vec<(u64, String, char, u64)> {
     v
 }
 
-fn worker_threads_alive() -> Vec<String> {
-    thread_table().into_iter().filter(|t| !t.1.is_empty() && t.1.bytes().all(|c| c.is_ascii_digit())).map(|t| t.1).collect()
+/// Threads of this process that exist now, did not exist before the scenario started, and carry a name of their own:
+/// the pool's workers, whatever the pool calls them. (Unnamed threads keep the process name: that is the pool's
+/// detached recovery thread; "lifecycle" is the harness thread that runs the script.)
+fn worker_threads_alive(baseline: &[u64], process_comm: &str) -> Vec<String> {
+    thread_table().into_iter().filter(|t| !baseline.contains(&t.0) && !t.1.is_empty() && t.1 != process_comm && t.1 != "lifecycle").map(|t| t.1).collect()
 }
 
 /// Child process: run one scenario, print one JSON line.
@@ -111,6 +114,8 @@ pub fn one(args: &Args) {
     let sc = Scenario::parse(n, args.get("tasks").unwrap_or(""), script);
     silence_task_panics();
     T0.set(Instant::now()).ok();
+    let baseline: Vec<u64> = thread_table().into_iter().map(|t| t.0).collect();
+    let process_comm = std::fs::read_to_string("/proc/self/comm").unwrap_or_default().trim().to_string();
     // delay plan
     let mut rng = Rng::derive(plan_seed, 0x0808);
     let mut plan = HashMap::new();
@@ -195,10 +200,10 @@ pub fn one(args: &Args) {
         // every worker thread exits
         if inconclusive.is_none() && viol.is_empty() {
             let t = Instant::now();
-            let mut alive = worker_threads_alive();
+            let mut alive = worker_threads_alive(&baseline, &process_comm);
             while !alive.is_empty() && t.elapsed() < Duration::from_secs(5) {
                 std::thread::sleep(Duration::from_millis(2));
-                alive = worker_threads_alive();
+                alive = worker_threads_alive(&baseline, &process_comm);
             }
             if !alive.is_empty() {
                 viol.push(("C08/worker-threads-remain".into(), format!("5 s after stop/drop returned and all tasks ran, worker threads {:?} are still alive", alive)));
